@@ -299,6 +299,23 @@ def _preserve(obj):
     obj.preserve(fd)
     return fd.getvalue()
 
+def _reg_dump(b, root):
+    """every value of a registry tree as (full name, repr of the stored value); walks `_children` directly
+    (registry.getValues goes through __getattr__ and is ten times slower)"""
+    Value = b.registry.Value
+    out = []
+    stack = [root]
+    while stack:
+        g = stack.pop()
+        for ch in g._children.values():
+            if isinstance(ch, Value) and ch._wasSet:        # like getValues: lazily supplied per-channel defaults are not values
+                v = ch.value
+                out.append((ch._name, repr(sorted(v, key=repr)) if isinstance(v, (set, frozenset)) else repr(v)))
+            if ch._children:
+                stack.append(ch)
+    out.sort()
+    return out
+
 def snapshot(b, light=False):
     """the privileged state a denied command must not touch (canonical, comparable)"""
     global _FRESH_CHANNEL
@@ -315,8 +332,8 @@ def snapshot(b, light=False):
     nowt = time.time()
     s['ignores'] = sorted((h, e) for h, e in ircdb.ignores.hostmasks.items() if not (e and nowt > e))
     s['networks'] = sorted(n for n, _ in ircdb.networks.items())
-    s['registry'] = [(n, str(v)) for n, v in conf.supybot.getValues(getChildren=True, fullNames=True)]
-    s['uregistry'] = [(n, str(v)) for n, v in conf.users.getValues(getChildren=True, fullNames=True)]
+    s['registry'] = _reg_dump(b, conf.supybot)
+    s['uregistry'] = _reg_dump(b, conf.users)
     s['callbacks'] = [(cb.name(), id(cb)) for cb in b.irc.callbacks]
     s['ircs'] = [(i.network, i.zombie) for i in b.world.ircs]
     s['events'] = sorted(str(k) for k in b.schedule.schedule.events)
@@ -676,8 +693,13 @@ def explore(ctx, b, w, table, required, n_extra):
     class _Fake(object):
         pass
     fake = _Fake(); fake.irc = irc
+    route_cache = {}
     def route(words):
-        return b.callbacks.NestedCommandsIrcProxy.findCallbacksForArgs(fake, list(words))
+        k2 = tuple(words)
+        if k2 not in route_cache:
+            rc, rcbs = b.callbacks.NestedCommandsIrcProxy.findCallbacksForArgs(fake, list(words))
+            route_cache[k2] = (list(rc), list(rcbs))
+        return route_cache[k2]
     unroutable = []
     base_snap = [snapshot(b)]
     for sc in scen:
